@@ -144,6 +144,12 @@ class C03(fw.Prop):
         out = [["send", k, 1] for k in cl.REQUESTS] + [["send", "rlrq", 0]]
         for res, mech in ((0, None), (1, None), (2, None), (0, 5), (0, 1), (1, 5)):
             out.append(p.resp("aare", (res, mech)))
+        # the same results under other diagnostics (authentication-required, authentication-failure, no-reason-given, ...)
+        for res, mech in ((1, None), (2, None), (1, 5), (2, 5), (0, None), (0, 5)):
+            for diag in (14, 13, 1, 11):
+                a = p.resp("aare", (res, mech))
+                a[1] = a[1] + [f"diag{diag}"]
+                out.append(a)
         # an AARE whose user-information is not an initiate response (a meter that rejects sends a confirmed-service-error)
         for res in (0, 1, 2):
             out.append(["recv", ["aare", str(res), "none", MT if p.ciphered else "none", "none", "other"], None])
